@@ -451,11 +451,11 @@ func (r *replicateChannelManager) StartReadCollection(ctx context.Context, db *m
 		return nil
 	})
 
-	if err == nil {
-		for _, channelHandler := range channelHandlers {
-			channelHandler.startReadChannel()
-			log.Info("start read the source channel", zap.String("channel_name", channelHandler.sourcePChannel))
-		}
+	// the channel handlers created in this call are in the manager's table whether or not every shard could be started: they
+	// are started in any case, otherwise every collection that joins one of them later waits for it for ever
+	for _, channelHandler := range channelHandlers {
+		channelHandler.startReadChannel()
+		log.Info("start read the source channel", zap.String("channel_name", channelHandler.sourcePChannel))
 	}
 	return err
 }
